@@ -20,10 +20,13 @@ class newton:
     properties = ["C02"]
     opaque_results = {"shouldStop": "bool"}
     opaque_calls = ["MultiTensor", "multi_solve"]
-    loops = {0: lambda _i: count("F") == _i and not warned()}
+    loops = {0: lambda _i: count("F") == _i and count("shouldStop") == _i and not warned()}
     ensures = {
         "stops_or_warns": lambda: last("shouldStop") or warned(),
         "budget": lambda kmax: implies(kmax >= 0, count("F") <= kmax),
+        # the stopping criterion is evaluated exactly once per evaluation of F (on that evaluation's result): no other
+        # test may stand in for it when the budget runs out
+        "criterion_per_step": lambda: count("shouldStop") == count("F"),
     }
 
 
